@@ -23,6 +23,23 @@ def app(prop, theorems, explanation, assumptions, facts=None):
 
 
 PROPS = {
+    "C17": {
+        "module": "Shutter.Properties.C17",
+        "theorems": ["C17_match_total", "C17_alloc_bounded", "C17_match_spec_static", "C17_match_spec_topic",
+                     "C17_match_spec_dynamic", "C17_filter_exists", "C17_filter_sound", "C17_decode_valid"],
+        "driver": {"pkg": "./cmd/tdcheck"},
+        "trusted_base": [KERNEL, CORR,
+                         "modelled, not verified: go-ethereum rlp (re-implemented in the model with its canonical-form checks and compared "
+                         "byte for byte), big.Int.SetBytes/Uint64/IsUint64, Go slice semantics (explicit bounds checks in the model), "
+                         "go-ethereum's eth_getLogs topic matching (passes)"],
+        "explanation": "Theorems (Lean): matching a valid definition against any log is total (no slice of log-controlled data leaves its "
+                       "bounds) and allocates at most |data| + 3 words; on well-formed data it reads exactly the documented topic / word / "
+                       "ABI slice; every valid definition has a filter and every matching log passes it; successful decoding yields a valid "
+                       "definition. The real Validate, MarshalBytes, UnmarshalBytes, Match, ToFilterQuery are compared with the model on "
+                       "generated definitions x aimed logs and on mutated encodings, under recover().",
+        "assumptions": ["log data shorter than 2^62 bytes (uint64 arithmetic on offsets does not wrap)",
+                        "byte-level RLP round-trip is compared with the implementation, not proved (C17_roundtrip is not claimed as a theorem)"],
+    },
     "C14": {
         "module": "Shutter.Properties.C14",
         "theorems": ["C14_roundtrip", "C14_uint_strict", "C14_expect_length", "C14_names_checked"],
